@@ -46,6 +46,16 @@ let handle (line : string) : string =
       (match lex_full (mb = "1") (nat_of_int (int_of_string flags)) (ints_of rest) with
        | Ok ts -> let b = Buffer.create 256 in Buffer.add_string b "OK "; List.iter (show_ftok b) ts; Buffer.contents b
        | Err e -> "ERR " ^ err_name e)
+  | "SPEC" :: mb :: flags :: rest ->
+      (match spec_lex (mb = "1") (nat_of_int (int_of_string flags)) (ints_of rest) with
+       | Ok ts -> let b = Buffer.create 256 in Buffer.add_string b "OK "; List.iter (show_tok b) ts; Buffer.contents b
+       | Err e -> "ERR " ^ err_name e)
+  | "CLASSIFY" :: flags :: rest ->
+      string_of_int (int_of_n (classify_input (nat_of_int (int_of_string flags)) (ints_of rest)))
+  | "DEVS" :: flags :: [] ->
+      let ds = devs_paths (nat_of_int (int_of_string flags)) in
+      String.concat " " (List.map (fun (((s, t), i), path) ->
+        Printf.sprintf "%d:%s%s" (int_of_n (dev_family ((s, t), i))) (cps path) (match i with None -> "$" | Some _ -> "")) ds)
   | _ -> "BAD-REQUEST"
 
 let () =
